@@ -404,7 +404,10 @@ def run_rest(ctx):
     # whether the budget slot is found depends on the budget-content predicate of the lexical table (seed c15-p: `'0'..'9'` loses the digit 9
     # and a task is read as a sentence)
     import tables as _tb15
-    _tb15.rule_T_PRED(ctx, _tb15.Tables(ctx))
+    _T15 = _tb15.Tables(ctx)
+    _tb15.rule_T_PRED(ctx, _T15)
+    # a stamp keyword missing from the lexical vocabulary hides the punctuation behind it: the sentence is read as a bare term (seed c15-x)
+    _tb15.rule_T_AGREE(ctx, _T15)
     ctx.undecided = ["kind(parse(format(v))) = kind(v) for every value (runs into value-dependent parsing, see C01)"]
     ctx.assumptions = ["Vec::is_empty / matches! semantics of std"]
     ctx.trusted = ["rustc HIR/MIR", "mirfacts driver", "python rule layer"]
